@@ -1,6 +1,8 @@
 /-
 QV.Model.EarlyStop — model of `EarlyStopping` (qucumber/callbacks/early_stopping.py, as it is AFTER the
-`fix:` for F7: lookback index `-self.patience - 1`, gate `len(evaluator) > patience`) and of the deprecated
+`fix:` for F7: lookback index `-self.patience - 1`, gate `len(evaluator) > patience`; and AFTER the `fix:` for F8:
+`_relative_change` divides with `np.divide`, so a zero reference gives inf/nan instead of a `ZeroDivisionError`
+for Python floats) and of the deprecated
 `VarianceBasedEarlyStopping` (variance_based_early_stopping.py), on top of the evaluator state of
 `QV.Model.Callbacks`, together with the part of `fit` that matters for it: the epoch loop that dispatches
 `on_epoch_end` to [evaluator, stopper] in LIST ORDER and breaks when `stop_training` is set
@@ -10,6 +12,14 @@ Numbers: a monitored value is a `Num α` = (Python result kind, value).  Python 
 `ZeroDivisionError` on a zero divisor, `numpy.float64` division returns ±inf / nan (a warning only); the
 kind of a result follows numpy's operator dispatch (`np.float64` wins over `float`).  The arithmetic is
 polymorphic in `α` (run at `Float`, theorems at `ℝ`).
+
+DEGENERATE QUOTIENTS ARE EXPLICIT.  A quotient by zero and the square root of a negative number have no value
+in `ℝ` (Mathlib totalises `x / 0 = 0`, `√(-1) = 0`), while IEEE gives ±inf / nan, for which every comparison
+`dev < tolerance` is False.  The model therefore never divides by a zero divisor: such a quotient is the extended
+value `none` ("inf or nan: below no tolerance"), produced by an explicit test `divisor == 0` / `x < 0`.  At `Float`
+the test changes no decision (IEEE `x / 0` is ±inf or nan, `sqrt` of a negative is nan, and `<` is False for those);
+at `ℝ` it keeps the totalisation out of the theorems.  The tolerance is an `Option α`: `none` is `float("inf")`
+(`dev < inf` holds exactly for the finite `dev`, tested as `dev - dev == 0`).
 
 Import-free (only QV.Model.*).
 -/
@@ -34,21 +44,35 @@ def NumKind.join : NumKind → NumKind → NumKind
   | _, _ => .np
 
 section
-variable {α : Type} [Sub α] [Div α] [Zero α] [BEq α] [Transc α]
+variable {α : Type} [Sub α] [Div α] [Zero α] [BEq α] [LT α] [DecidableLT α] [Transc α]
 
 /-- `a - b` -/
 def Num.sub (a b : Num α) : Num α := ⟨a.kind.join b.kind, a.x - b.x⟩
 
-/-- `a / b`: `ZeroDivisionError` iff both are Python floats and `b == 0.0`; otherwise IEEE division -/
-def Num.div (a b : Num α) : Except PyErr (Num α) :=
+/-- Python `a / b`: `ZeroDivisionError` iff both are Python floats and `b == 0.0`; a numpy zero divisor gives
+±inf / nan (`none`, a warning only); otherwise the IEEE quotient -/
+def Num.div (a b : Num α) : Except PyErr (Option (Num α)) :=
   if a.kind = .py ∧ b.kind = .py ∧ (b.x == 0) = true then .error .ZeroDivisionError
-  else .ok ⟨a.kind.join b.kind, a.x / b.x⟩
+  else if (b.x == 0) = true then .ok none
+  else .ok (some ⟨a.kind.join b.kind, a.x / b.x⟩)
+
+/-- `np.divide(a, b)` (inside `np.errstate(divide="ignore", invalid="ignore")`): never raises, always a numpy
+scalar; a zero divisor gives ±inf / nan (`none`) -/
+def Num.npDivide (a b : Num α) : Option (Num α) :=
+  if (b.x == 0) = true then none else some ⟨.np, a.x / b.x⟩
 
 /-- `abs(a)` keeps the kind -/
 def Num.abs (a : Num α) : Num α := ⟨a.kind, Transc.abs a.x⟩
 
-/-- `np.sqrt(a)` always returns a numpy scalar (nan for negative input, a warning only) -/
-def Num.npSqrt (a : Num α) : Num α := ⟨.np, Transc.sqrt a.x⟩
+/-- `np.sqrt(a)` always returns a numpy scalar; nan (`none`) for a negative input (a warning only) -/
+def Num.npSqrt (a : Num α) : Option (Num α) :=
+  if a.x < 0 then none else some ⟨.np, Transc.sqrt a.x⟩
+
+/-- `dev < tolerance`; `tolerance = none` is `float("inf")`: `dev < inf` iff `dev` is finite, i.e. `dev - dev == 0`
+(IEEE: `inf - inf` and `nan - nan` are nan) -/
+def belowTol (d : α) : Option α → Bool
+  | some t => decide (d < t)
+  | none => d - d == 0
 end
 
 /-! ### constructor -/
@@ -102,7 +126,8 @@ def PatArg.toInt : PatArg → Except PyErr Int
 /-- the fields `EarlyStopping.__init__` stores -/
 structure EarlyStopping (α : Type) where
   period : Int
-  tolerance : α
+  /-- `none` = `float("inf")` -/
+  tolerance : Option α
   patience : Int
   quantityName : String
   criterion : Criterion
@@ -113,7 +138,7 @@ structure EarlyStopping (α : Type) where
 `int(patience)`; MetricEvaluator ⇒ `TypeError` if the normalised criterion is "variance";
 ObservableEvaluator ⇒ getters on "mean"/"variance"; anything else ⇒ `TypeError`;
 then the criterion table ⇒ `ValueError` for an unknown name. -/
-def EarlyStopping.new {α : Type} (period : Int) (tolerance : α) (patience : PatArg) (ek : EvalKind)
+def EarlyStopping.new {α : Type} (period : Int) (tolerance : Option α) (patience : PatArg) (ek : EvalKind)
     (quantityName : String) (criterion : String) : Except PyErr (EarlyStopping α) :=
   match patience.toInt with
   | .error e => .error e
@@ -133,7 +158,7 @@ def EarlyStopping.new {α : Type} (period : Int) (tolerance : α) (patience : Pa
 
 /-- `VarianceBasedEarlyStopping.__init__` (variance_based_early_stopping.py:63-85): a deprecation warning,
 then `super().__init__(…, criterion="variance")`; `variance_name` is ignored. -/
-def VarianceBasedEarlyStopping.new {α : Type} (period : Int) (tolerance : α) (patience : PatArg) (ek : EvalKind)
+def VarianceBasedEarlyStopping.new {α : Type} (period : Int) (tolerance : Option α) (patience : PatArg) (ek : EvalKind)
     (quantityName : String) (_varianceName : Option String) : Except PyErr (EarlyStopping α) :=
   EarlyStopping.new period tolerance patience ek quantityName "variance"
 
@@ -185,7 +210,7 @@ end AnyEval
 /-! ### deviations and `on_epoch_end` -/
 
 section
-variable {W α : Type} [Sub α] [Div α] [Zero α] [BEq α] [Transc α]
+variable {W α : Type} [Sub α] [Div α] [Zero α] [BEq α] [LT α] [DecidableLT α] [Transc α]
 
 namespace EarlyStopping
 
@@ -198,36 +223,37 @@ def changeInMetric (es : EarlyStopping α) (ev : AnyEval W α) : Except PyErr (N
     | .error e => .error e
     | .ok cur => .ok (ref.sub cur)
 
-/-- `_relative_change` (early_stopping.py:130-134): `abs(change / value(name, -patience - 1))` -/
-def relativeChange (es : EarlyStopping α) (ev : AnyEval W α) : Except PyErr (Num α) :=
+/-- `_relative_change` (early_stopping.py:130-138, after the F8 fix):
+`abs(np.divide(change, value(name, -patience - 1)))`; `none` = inf / nan (zero reference) -/
+def relativeChange (es : EarlyStopping α) (ev : AnyEval W α) : Except PyErr (Option (Num α)) :=
   match es.changeInMetric ev with
   | .error e => .error e
   | .ok ch =>
     match ev.value es.quantityName (some (-es.patience - 1)) with
     | .error e => .error e
-    | .ok ref =>
-      match ch.div ref with
-      | .error e => .error e
-      | .ok q => .ok q.abs
+    | .ok ref => .ok ((ch.npDivide ref).map Num.abs)
 
-/-- `_absolute_change` (early_stopping.py:136-137) -/
-def absoluteChange (es : EarlyStopping α) (ev : AnyEval W α) : Except PyErr (Num α) :=
+/-- `_absolute_change` -/
+def absoluteChange (es : EarlyStopping α) (ev : AnyEval W α) : Except PyErr (Option (Num α)) :=
   match es.changeInMetric ev with
   | .error e => .error e
-  | .ok ch => .ok ch.abs
+  | .ok ch => .ok (some ch.abs)
 
-/-- `_variance_scaled_abs_change` (early_stopping.py:139-142):
-`abs(change) / np.sqrt(variance(name, -patience - 1))` -/
-def varianceScaledAbsChange (es : EarlyStopping α) (ev : AnyEval W α) : Except PyErr (Num α) :=
+/-- `_variance_scaled_abs_change`: `abs(change) / np.sqrt(variance(name, -patience - 1))`;
+`none` = inf / nan (variance zero, negative or nan-producing) -/
+def varianceScaledAbsChange (es : EarlyStopping α) (ev : AnyEval W α) : Except PyErr (Option (Num α)) :=
   match es.changeInMetric ev with
   | .error e => .error e
   | .ok ch =>
     match ev.variance es.quantityName (some (-es.patience - 1)) with
     | .error e => .error e
-    | .ok var => ch.abs.div var.npSqrt
+    | .ok var =>
+      match var.npSqrt with
+      | none => .ok none
+      | some sd => ch.abs.div sd
 
-/-- `self.deviation()` -/
-def deviation (es : EarlyStopping α) (ev : AnyEval W α) : Except PyErr (Num α) :=
+/-- `self.deviation()`: an extended value, `none` = inf or nan -/
+def deviation (es : EarlyStopping α) (ev : AnyEval W α) : Except PyErr (Option (Num α)) :=
   match es.criterion with
   | .relative => es.relativeChange ev
   | .absolute => es.absoluteChange ev
@@ -241,10 +267,8 @@ structure StopState where
   lastEpoch : Option Int
   deriving DecidableEq, Repr
 
-variable [LT α] [DecidableLT α]
-
-/-- `EarlyStopping.on_epoch_end` (early_stopping.py:145-150): period gate, length gate `len > patience`,
-`deviation() < tolerance` ⇒ set the stop flag and `last_epoch`. -/
+/-- `EarlyStopping.on_epoch_end`: period gate, length gate `len > patience`,
+`deviation() < tolerance` ⇒ set the stop flag and `last_epoch`; an inf / nan deviation is below no tolerance. -/
 def EarlyStopping.onEpochEnd (es : EarlyStopping α) (ev : AnyEval W α) (st : StopState) (e : Int) :
     Except PyErr StopState :=
   match gate e es.period with
@@ -254,7 +278,8 @@ def EarlyStopping.onEpochEnd (es : EarlyStopping α) (ev : AnyEval W α) (st : S
     if (ev.len : Int) > es.patience then
       match es.deviation ev with
       | .error err => .error err
-      | .ok d => if d.x < es.tolerance then .ok ⟨true, some e⟩ else .ok st
+      | .ok none => .ok st
+      | .ok (some d) => if belowTol d.x es.tolerance then .ok ⟨true, some e⟩ else .ok st
     else .ok st
 
 /-! ### the epoch loop of `fit` with the two callbacks -/
